@@ -55,3 +55,71 @@ Proof.
   cbn [byte_serialize flat_map]. fold (byte_serialize bs). rewrite forallb_app, IH, andb_true_r.
   pose proof ser_safe_all as H. rewrite forallb_forall in H. exact (H b (in_below 256 b Hb)).
 Qed.
+
+(* ---- the query string of the request ------------------------------------------------------------ *)
+Lemma split_on_app sep cur a b : split_on sep cur (a ++ sep :: b) = split_on sep cur a ++ split_on sep [] b.
+Proof.
+  revert cur. induction a as [|c a IH]; intros cur.
+  - cbn [app split_on]. rewrite N.eqb_refl. reflexivity.
+  - cbn [app split_on]. destruct (c =? sep); [rewrite IH; reflexivity | apply IH].
+Qed.
+
+Lemma split_on_none sep cur a : forallb (fun c => negb (c =? sep)) a = true -> split_on sep cur a = [rev cur ++ a].
+Proof.
+  revert cur. induction a as [|c a IH]; intros cur H; cbn [split_on].
+  - rewrite app_nil_r. reflexivity.
+  - cbn [forallb] in H. apply andb_true_iff in H. destruct H as [Hc Ha]. apply negb_true_iff in Hc. rewrite Hc.
+    rewrite IH by exact Ha. cbn [rev]. rewrite <- app_assoc. reflexivity.
+Qed.
+
+Lemma break_at_key sep k v : forallb (fun c => negb (c =? sep)) k = true -> break_at sep (k ++ sep :: v) = (k, Some v).
+Proof.
+  induction k as [|c k IH]; intros H; cbn [app break_at].
+  - rewrite N.eqb_refl. reflexivity.
+  - cbn [forallb] in H. apply andb_true_iff in H. destruct H as [Hc Hk]. apply negb_true_iff in Hc. rewrite Hc.
+    rewrite IH by exact Hk. reflexivity.
+Qed.
+
+Definition no_sep (sep : N) (s : bytes) : bool := forallb (fun c => negb (c =? sep)) s.
+Lemma no_sep_app sep a b : no_sep sep (a ++ b) = no_sep sep a && no_sep sep b.
+Proof. unfold no_sep. apply forallb_app. Qed.
+
+Lemma ser_no_amp bs : Forall (fun b => b < 256) bs -> no_sep ch_amp (byte_serialize bs) = true.
+Proof.
+  intros H. pose proof (serialize_safe bs H) as S. unfold no_sep. rewrite forallb_forall in *. intros c Hc. specialize (S c Hc).
+  apply andb_true_iff in S. destruct S as [S _]. apply andb_true_iff in S. destruct S as [S _]. apply andb_true_iff in S. tauto.
+Qed.
+
+(* a parameter k=<serialised v> in the middle of a query: it is one of the pairs, spelled as written *)
+Lemma pairs_middle q0 k v rest : no_sep ch_amp k = true -> no_sep ch_eq k = true -> k <> [] -> no_sep ch_amp v = true ->
+  query_pairs (q0 ++ ch_amp :: (k ++ ch_eq :: v) ++ ch_amp :: rest) = query_pairs q0 ++ (k, v) :: query_pairs rest.
+Proof.
+  intros Hk1 Hk2 Hne Hv. unfold query_pairs. rewrite split_on_app.
+  replace ((k ++ ch_eq :: v) ++ ch_amp :: rest) with ((k ++ ch_eq :: v) ++ ch_amp :: rest) by reflexivity.
+  rewrite (split_on_app ch_amp [] (k ++ ch_eq :: v) rest).
+  rewrite (split_on_none ch_amp [] (k ++ ch_eq :: v)).
+  2:{ change (no_sep ch_amp (k ++ ch_eq :: v) = true). rewrite no_sep_app, Hk1. cbn [no_sep forallb andb]. exact Hv. }
+  cbn [rev app]. rewrite !filter_app, !map_app. cbn [filter].
+  assert (Hnn : bytes_eqb (k ++ ch_eq :: v) [] = false) by (destruct k; [congruence | reflexivity]).
+  rewrite Hnn. cbn [negb map app]. rewrite (break_at_key ch_eq k v Hk2). reflexivity.
+Qed.
+
+Lemma lookup_app_miss k ps1 ps2 : lookup k ps1 = None -> lookup k (ps1 ++ ps2) = lookup k ps2.
+Proof.
+  unfold lookup. induction ps1 as [|[k1 v1] ps1 IH]; intros H; [reflexivity|]. cbn [app find fst] in *.
+  destruct (bytes_eqb (form_decode k1) k); [discriminate | apply IH; exact H].
+Qed.
+
+Lemma bytes_eqb_refl (x : bytes) : bytes_eqb x x = true.
+Proof. induction x as [|a x IH]; cbn; [reflexivity | rewrite N.eqb_refl, IH; reflexivity]. Qed.
+
+(* the info_hash parameter, behind any existing query that has no info_hash of its own and in front of the client's other
+   parameters: it is found, and it decodes to exactly the 20 hash bytes, for every hash *)
+Theorem info_hash_found q0 hash rest : Forall (fun b => b < 256) hash -> lookup s_info_hash (query_pairs q0) = None ->
+  lookup s_info_hash (query_pairs (q0 ++ ch_amp :: (s_info_hash ++ ch_eq :: byte_serialize hash) ++ ch_amp :: rest)) = Some hash.
+Proof.
+  intros Hh Hq. rewrite pairs_middle; [| reflexivity | reflexivity | discriminate | apply ser_no_amp; exact Hh].
+  rewrite lookup_app_miss by exact Hq. unfold lookup. cbn [find fst snd].
+  replace (form_decode s_info_hash) with s_info_hash by reflexivity. rewrite bytes_eqb_refl.
+  rewrite decode_serialize by exact Hh. reflexivity.
+Qed.
